@@ -106,7 +106,11 @@ func ReceiveFeedback(item *models.Item) error {
 
 	verifhook.At("reactor.feedback.enter", item)
 	item.SetSource(models.ItemSourceFeedback)
-	_, loaded := globalReactor.stateTable.Swap(item.GetID(), item)
+	// Only a seed that is tracked may be fed back: look it up before touching the state table
+	_, loaded := globalReactor.stateTable.Load(item.GetID())
+	if loaded {
+		globalReactor.stateTable.Store(item.GetID(), item)
+	}
 	verifhook.At("reactor.feedback.swapped", item, loaded)
 	if !loaded {
 		// An item sent to the feedback channel should be present on the state table, if not present reactor should error out
